@@ -69,6 +69,14 @@ def alphabet(kind, args):
     if kind == "hh":
         L = args[2]
         return [b"a"[:L], (b"a\x00")[:L] if L > 1 else b"b", b"\x00" * L, b"longer-than-L" + b"x" * L]
+    if kind == "hll":
+        # boundary register values: a key of the MAXIMUM rank 64-p+1 in the last register and one
+        # of rank 64-p in register 0 (crafted by inverting the hash)
+        from ..models import hll as M3
+
+        p, seed = args[0], args[1]
+        return [b"", M3.craft(p, seed, (1 << p) - 1, 64 - p + 1), M3.craft(p, seed, 0, 64 - p),
+                b"\xff\x80\x7f" * 3]
     return [b"", b"\x00", b"k1", b"\xff\x80\x7f" * 3]
 
 
@@ -80,6 +88,12 @@ def events_for(kind, args):
         evs.append(("add", k, 3))
     evs.append(("add", A[3], 2))
     evs.append(("ngram", A[3] + A[0], 2))
+    if kind == "linear":
+        # a counter driven to its largest storable value
+        evs.append(("add", A[2], 2**32 - 1))
+    elif kind in ("log16", "log8"):
+        # well into the probabilistic range (the draws are the installed ones)
+        evs.append(("add", A[2], 1500))  # < one batch of draws (2048)
     return evs
 
 
@@ -275,6 +289,12 @@ def explore(kind, args, depth, sub, d):
         c1 = capture(X, SKIP)
         seen[c1] = [("records", 5), evs[1]]
         frontier.append(c1)
+        # and one with records but NO key counted (a parallel_add worker whose records were empty)
+        restore(X, c0, SKIP)
+        do(X, ("records", 17))
+        c2 = capture(X, SKIP)
+        seen[c2] = [("records", 17)]
+        frontier.append(c2)
     stats = dict(states=0, loads=0, bisim=0)
     for c in list(frontier):
         check_state(kind, args, seen[c], c, X, d, sub, stats)
@@ -343,7 +363,7 @@ def task(arg):
     d = tmpdir()
     st = dict(states=0, loads=0, bisim=0)
     try:
-        depth = 2 if tier == "quick" else 3
+        depth = 2 if tier == "quick" else 4
         try:
             st = explore(kind, args, depth, sub, d)
         except StopExploration:
